@@ -30,6 +30,7 @@ Inductive xpc :=
 | XDiscClosedQ (s : nat)       (* Disconnect/Reconnect holding the lock: about to ask Closed() of the old session *)
 | XDiscClose (s : nat)         (* about to Close the old session's connection *)
 | XDial                        (* Connect/Reconnect holding the lock: about to dial *)
+| XSetErr (ok : bool)          (* Reconnect holding the lock, after its dial: about to record / clear the sticky error (setErr) *)
 (* background reader of session s *)
 | XBgStart (s : nat) | XBgListening (s : nat) | XBgReport (s : nat) | XBgDone | XBgNotSpawned.
 
@@ -78,18 +79,30 @@ Section WsClient.
 
   (* dial + NewSession + spawn the reader: holding the exclusive lock *)
   Definition do_dial (g : xshared) (l : xlocal) (ok : bool) (reconnect : bool) : xshared * xlocal * option xevent :=
-    if ok then
-      let sid := length (xg_sessions g) in
-      let pl := match xg_plan g with p :: _ => p | [] => (false, false) end in
-      ({| xg_sess := Some sid; xg_err := if reconnect then false else xg_err g; xg_SL := wunlock (xg_SL g);
-          xg_sessions := xg_sessions g ++ [{| xs_closed := false; xs_ends_alone := fst pl; xs_lerr := snd pl |}];
-          xg_plan := tl (xg_plan g); xg_spawned := xg_spawned g ++ [sid]; xg_frames := xg_frames g; xg_closes := xg_closes g; xg_panic := xg_panic g |},
-       xfin l 0, Some (XEvNew true))
+    (* Connect returns right after the dial (unlock, result); Reconnect goes on, still holding the lock, to setErr *)
+    let sid := length (xg_sessions g) in
+    let pl := match xg_plan g with p :: _ => p | [] => (false, false) end in
+    if reconnect then
+      if ok then
+        ({| xg_sess := Some sid; xg_err := xg_err g; xg_SL := xg_SL g;
+            xg_sessions := xg_sessions g ++ [{| xs_closed := false; xs_ends_alone := fst pl; xs_lerr := snd pl |}];
+            xg_plan := tl (xg_plan g); xg_spawned := xg_spawned g ++ [sid]; xg_frames := xg_frames g; xg_closes := xg_closes g; xg_panic := xg_panic g |},
+         xat l (XSetErr true), Some (XEvNew true))
+      else
+        ({| xg_sess := None; xg_err := xg_err g; xg_SL := xg_SL g;
+            xg_sessions := xg_sessions g; xg_plan := xg_plan g; xg_spawned := xg_spawned g; xg_frames := xg_frames g; xg_closes := xg_closes g; xg_panic := xg_panic g |},
+         xat l (XSetErr false), Some (XEvNew false))
     else
-      (* Connect: the session stays nil; Reconnect: c.session = nil and the error is recorded *)
-      ({| xg_sess := None; xg_err := if reconnect then true else xg_err g; xg_SL := wunlock (xg_SL g);
-          xg_sessions := xg_sessions g; xg_plan := xg_plan g; xg_spawned := xg_spawned g; xg_frames := xg_frames g; xg_closes := xg_closes g; xg_panic := xg_panic g |},
-       xfin l 6, Some (XEvNew false)).
+      if ok then
+        ({| xg_sess := Some sid; xg_err := xg_err g; xg_SL := wunlock (xg_SL g);
+            xg_sessions := xg_sessions g ++ [{| xs_closed := false; xs_ends_alone := fst pl; xs_lerr := snd pl |}];
+            xg_plan := tl (xg_plan g); xg_spawned := xg_spawned g ++ [sid]; xg_frames := xg_frames g; xg_closes := xg_closes g; xg_panic := xg_panic g |},
+         xfin l 0, Some (XEvNew true))
+      else
+        (* Connect: the session stays nil *)
+        ({| xg_sess := None; xg_err := xg_err g; xg_SL := wunlock (xg_SL g);
+            xg_sessions := xg_sessions g; xg_plan := xg_plan g; xg_spawned := xg_spawned g; xg_frames := xg_frames g; xg_closes := xg_closes g; xg_panic := xg_panic g |},
+         xfin l 6, Some (XEvNew false)).
 
   Definition is_reconnect (l : xlocal) : bool := match x_ops l with XReconnect _ :: _ => true | _ => false end.
   Definition dial_flag (l : xlocal) : bool := match x_ops l with XReconnect ok :: _ | XConnect ok :: _ => ok | _ => false end.
@@ -213,6 +226,9 @@ Section WsClient.
         else Some (g1, xfin l 0, Some (XEvClose s))
     | XDial =>
         Some (do_dial g l (dial_flag l) (is_reconnect l))
+    | XSetErr ok =>
+        (* c.setErr(err): nil after a successful dial (clears the sticky error), the dial error otherwise; unlock; return *)
+        Some (upd g (xg_sess g) (negb ok) (wunlock (xg_SL g)), xfin l (if ok then 0 else 6), None)
     end.
 
   Definition xdone (l : xlocal) : bool :=
